@@ -28,6 +28,7 @@ Definition res_code (r : res unit) : N :=
   | Raise (ExChan EOFErr) => 2
   | Raise (ExChan OSErr) => 3
   | Raise ExKeyError => 4
+  | Raise ExQueue => 3
   | Raise (ExChan OtherErr) => 5
   end.
 
@@ -39,7 +40,8 @@ Definition chans_ok (w : world) (chs : list chan_obs) : bool :=
 
 Inductive case :=
 | CSteps (h : list op) (outs : list N) (subs : list (N * N)) (chs : list chan_obs)
-| CRun (h : list op) (raised : N) (consumed : N) (subs : list (N * N)) (chs : list chan_obs).
+| CRun (h : list op) (raised : N) (consumed : N) (subs : list (N * N)) (chs : list chan_obs)
+| CRunQ (h : list qitem) (raised : N) (consumed : N) (subs : list (N * N)) (chs : list chan_obs).
 
 Definition check_case (c : case) : bool :=
   match c with
@@ -50,6 +52,13 @@ Definition check_case (c : case) : bool :=
       && chans_ok w chs
   | CRun h raised consumed subs chs =>
       match run cfg_fixed init h with
+      | (w, r, n) =>
+          N.eqb (res_code r) raised && N.eqb n consumed
+          && list_eqb pair_eqb (subscribers w) subs
+          && chans_ok w chs
+      end
+  | CRunQ h raised consumed subs chs =>
+      match run_q cfg_fixed init h with
       | (w, r, n) =>
           N.eqb (res_code r) raised && N.eqb n consumed
           && list_eqb pair_eqb (subscribers w) subs
